@@ -53,7 +53,7 @@ SPEC = {
     "floors": {"TestScenarioGun/post_header_substr": 0.15, "TestScenarioGun/post_jsonpath": 0.15, "TestScenarioGun/post_xpath": 0.15,
                "TestScenarioGun/post_assert": 0.15, "TestHTTPGun/mis_reset": 0.05, "TestHTTPGun/mis_bad_chunk": 0.05,
                "TestHTTPGun/mis_huge": 0.05, "TestHTTPGun/mis_stall": 0.05, "TestGRPCGuns/grpc_scenario_gun": 0.22,
-               "TestScenarioGun/substr_negative_index": 0.08, "TestScenarioGun/substr_negative_index_beyond_value": 0.03,
+               "TestScenarioGun/substr_negative_index": 0.06, "TestScenarioGun/substr_negative_index_beyond_value": 0.03,
                "TestHTTP2Gun/hs_internal_error": 0.04, "TestHTTP2Gun/hs_unrecognized_name": 0.04, "TestHTTP2Gun/hs_protocol_version": 0.04,
                "TestHTTP2Gun/hs_close": 0.04, "TestHTTP2Gun/h2_good_after_tls_alert": 0.15, "TestHTTP2Gun/h2_shared_client": 0.15,
                "TestHTTP2Gun/h2_mis_kill_conn": 0.03, "TestHTTP2Gun/h2_mis_abort": 0.05, "TestHTTP2Gun/target_without_h2": 0.03,
@@ -62,7 +62,7 @@ SPEC = {
                "TestHTTPGun/connect_gun": 0.14, "TestHTTPGun/connect_ssl": 0.062, "TestHTTPGun/target_goes_away": 0.1,
                "TestHTTPGun/target_never_up": 0.03, "TestHTTPGun/refused_seen": 0.088, "TestHTTPGun/refused_after_served": 0.05,
                "TestHTTPGun/connect_gun_refused": 0.025, "TestHTTPGun/connect_ssl_refused": 0.0094,
-               "TestScenarioGun/xpath_expr_nodeset_numeric": 0.12, "TestScenarioGun/xpath_expr_scalar": 0.012,
+               "TestScenarioGun/xpath_expr_nodeset_numeric": 0.09, "TestScenarioGun/xpath_expr_scalar": 0.012,
                "TestScenarioGun/xpath_expr_plain": 0.027, "TestScenarioGun/xpath_nodeset_numeric_on_non_numeric_page": 0.03,
                "TestScenarioGun/xpath_nodeset_numeric_on_numeric_page": 0.012,
                "TestScenarioGun/lying_length_postprocessed": 0.04, "TestScenarioGun/lying_length_unallocatable_postprocessed": 0.025,
@@ -70,8 +70,8 @@ SPEC = {
                "TestHTTP2ScenarioGun/lying_length_postprocessed": 0.04, "TestHTTP2ScenarioGun/lying_length_unallocatable_postprocessed": 0.025,
                "TestHTTP2ScenarioGun/head_announces_huge_postprocessed": 0.015,
                "TestHTTPGun/mis_announce": 0.015, "TestHTTP2Gun/h2_mis_announce": 0.015,
-               "TestConnectProxy/connect_refused_length": 0.25, "TestConnectProxy/connect_refused_chunked": 0.15,
-               "TestConnectProxy/connect_refused_none": 0.15, "TestConnectProxy/connect_refused_body_truncated": 0.2,
+               "TestConnectProxy/connect_refused_length": 0.2, "TestConnectProxy/connect_refused_chunked": 0.12,
+               "TestConnectProxy/connect_refused_none": 0.12, "TestConnectProxy/connect_refused_silent": 0.12, "TestConnectProxy/connect_refused_body_truncated": 0.15,
                "TestConnectProxy/connect_refused_body_truncated_conn_open": 0.13,
                "TestConnectProxy/connect_refused_body_truncated_conn_open_no_close_header": 0.09,
                "TestConnectProxy/connect_refused_complete_conn_open": 0.25, "TestConnectProxy/connect_keep_alive": 0.15,
